@@ -31,6 +31,7 @@ type Op17 struct {
 	Errno int      `json:"errno,omitempty"`
 	Rules [][]byte `json:"rules,omitempty"`
 	Noise int      `json:"noise,omitempty"` // unsolicited events before each ack
+	Eintr int      `json:"eintr,omitempty"` // transient EINTR receive failures before the ack
 }
 
 type C17Case struct {
@@ -43,7 +44,7 @@ type C17Case struct {
 func (c C17Case) Describe() string {
 	var b strings.Builder
 	for i, o := range c.Ops {
-		fmt.Fprintf(&b, " %d %s u32=%d ack-errno=%d rules=%x noise=%d\n", i, o.K, o.U32, o.Errno, o.Rules, o.Noise)
+		fmt.Fprintf(&b, " %d %s u32=%d ack-errno=%d rules=%x noise=%d eintr=%d\n", i, o.K, o.U32, o.Errno, o.Rules, o.Noise, o.Eintr)
 	}
 	fmt.Fprintf(&b, " then Close x %d (sends during Close fail with errno %d)\n", c.Closes, c.CloseSendErrno)
 	return b.String()
@@ -58,6 +59,7 @@ func genC17(t *rapid.T) C17Case {
 			o.Errno = rapid.SampledFrom([]int{int(syscall.EPERM), int(syscall.EINVAL), int(syscall.EBUSY), int(syscall.ENOMEM)}).Draw(t, "errno")
 		}
 		o.Noise = rapid.SampledFrom([]int{0, 0, 0, 1, 2}).Draw(t, "noise")
+		o.Eintr = rapid.SampledFrom([]int{0, 0, 0, 1, 3, 9}).Draw(t, "eintr")
 		if o.K == "getrules" {
 			for j, m := 0, rapid.IntRange(1, 4).Draw(t, "nrules"); j < m; j++ {
 				o.Rules = append(o.Rules, rapid.SliceOfN(rapid.Byte(), 1, 48).Draw(t, "rule"))
@@ -76,6 +78,7 @@ type pend struct {
 	seq   uint32
 	errno int
 	noise int
+	eintr int
 }
 
 func propC17(c C17Case) error {
@@ -127,7 +130,7 @@ func propC17(c C17Case) error {
 			if k.Recvs != before {
 				return fmt.Errorf("%s: a NoWait request performed %d receives", what, k.Recvs-before)
 			}
-			pending = append(pending, pend{k.Seq, o.Errno, o.Noise})
+			pending = append(pending, pend{k.Seq, o.Errno, o.Noise, o.Eintr})
 			nowaits++
 			if o.Errno != 0 {
 				errAmong = true
@@ -138,6 +141,9 @@ func propC17(c C17Case) error {
 			k.Queue = nil
 			for _, p := range pending {
 				pushNoise(p.noise)
+				for j := 0; j < p.eintr; j++ {
+					k.Fail(syscall.EINTR)
+				}
 				k.Push(simk.Ack(p.seq, p.errno, uint16(uapi.A("AUDIT_SET"))))
 			}
 			before := k.Recvs
@@ -145,7 +151,7 @@ func propC17(c C17Case) error {
 			consumed, recvs, wantErrno := 0, 0, 0
 			for _, p := range pending {
 				consumed++
-				recvs += 1 + p.noise
+				recvs += 1 + p.noise + p.eintr
 				if p.errno != 0 {
 					wantErrno = p.errno
 					break
